@@ -147,11 +147,23 @@ fn lockstep(kind: u8, side: Side, fees: bool, seed: u64) -> impl Fn() {
     move || {
         let mut t = twins(fees, (kind == 5 && seed % 2 == 1) || kind == 11);
         let d = t.cw.w.d;
-        let lev = Uint128::new(if kind == 5 { 10 * d } else { (2 + (seed % 3) as u128) * d });
-        symrt::set_full(kind == 0);
-        let m1 = if kind == 0 { amount("m1", d, false, 20) } else { Uint128::new((if kind == 5 { 25 } else { 20 + (seed % 9) as u128 }) * d) };
+        // (kind 12: a non-integer leverage, so that margin x leverage / leverage rounds)
+        let lev = Uint128::new(if kind == 5 { 10 * d } else if kind == 12 { [2 * d + d / 2, 3 * d + d / 2, 7 * d / 3][(seed % 3) as usize] } else { (2 + (seed % 3) as u128) * d });
+        symrt::set_full(kind == 0 || kind == 12);
+        // (kind 12 is seeded with non-round amounts: margin x leverage is not a multiple of 10^decimals)
+        let m1 = if kind == 12 { crate::sx::var("m1", 0, (1u128 << 40) * d, 20 * d + 1) } else if kind == 0 { amount("m1", d, false, 20) } else { Uint128::new((if kind == 5 { 25 } else { 20 + (seed % 9) as u128 }) * d) };
         let (ok, _) = t.step(Op::Open { who: ALICE, side: side.clone(), margin: m1, lev, limit: Uint128::zero(), funds: None });
         if !ok || kind == 0 {
+            return;
+        }
+        if kind == 12 {
+            // an increase and a reduction at the same fractional leverage, then the close
+            t.next_block(15);
+            let m2 = crate::sx::var("m2", 0, (1u128 << 40) * d, 7 * d + 3);
+            t.step(Op::Open { who: ALICE, side: side.clone(), margin: m2, lev, limit: Uint128::zero(), funds: None });
+            let m3 = crate::sx::var("m3", 0, (1u128 << 40) * d, 3 * d + 1);
+            t.step(Op::Open { who: ALICE, side: opp(&side), margin: m3, lev, limit: Uint128::zero(), funds: None });
+            t.step(Op::Close { who: ALICE, limit: Uint128::zero() });
             return;
         }
         t.next_block(15);
@@ -362,7 +374,7 @@ fn lockstep_gen(idx: u64, seed: u64) -> impl Fn() {
 pub fn scenarios(seed: u64) -> Vec<Scenario> {
     let mut v = vec![];
     let d = "twin deployments (native uwasm / cw20, 6 decimals, same parameters), same symbolic history in lock-step; per step: same success, Position records, vAMM state, engine state and per-account balance deltas proved equal";
-    let kinds = [(0u8, "open"), (1, "increase"), (2, "opposite"), (3, "close"), (4, "depwd"), (5, "liquidate"), (6, "close.thin-wallet"), (7, "fund.close"), (8, "fund.opposite"), (9, "fund.withdraw-increase-close"), (10, "fund.liquidate"), (11, "partial-close")];
+    let kinds = [(0u8, "open"), (1, "increase"), (2, "opposite"), (3, "close"), (4, "depwd"), (5, "liquidate"), (6, "close.thin-wallet"), (7, "fund.close"), (8, "fund.opposite"), (9, "fund.withdraw-increase-close"), (10, "fund.liquidate"), (11, "partial-close"), (12, "fractional-leverage")];
     for (k, kn) in kinds {
         for (side, sn) in [(Side::Buy, "long"), (Side::Sell, "short")] {
             for fees in [false, true] {
